@@ -35,7 +35,7 @@ def symbols(t):
     k = t.get_id()
     r = _sym_cache.get(k)
     if r is not None:
-        return r
+        return r[1]
     out = set()
     seen = set()
     stack = [t]
@@ -50,7 +50,7 @@ def symbols(t):
             if d.kind() == z3.Z3_OP_UNINTERPRETED:
                 out.add(d.name())
             stack.extend(x.children())
-    _sym_cache[k] = out
+    _sym_cache[k] = (t, out)   # keep the term alive: ast ids are reused after collection
     return out
 
 
